@@ -40,6 +40,9 @@ def passthrough(lo, hi, w=64, prefix='e'):
 
 def run(ctx, rep):
     f = ctx.lib
+    from . import span
+    rep.rule('C15.7', 'the host-cluster span of a compressed extent is exactly the clusters it touches (allocation(), and releases computed in place)')
+    span.allocation_rule(f, rep, 'C15.7')
     P = Program(f)
     rep.explanation = (
         'C15 is decided in part: bit provenance of every entry accessor, of the compressed descriptor split for all 13 '
@@ -51,6 +54,7 @@ def run(ctx, rep):
     rep.rule('C15.3', 'refcount get/set address exactly the specified bits; set preserves the rest and range-checks first')
     rep.rule('C15.4', 'table get uses from_be, set uses to_be')
     rep.rule('C15.5', 'raw header field sequence = specification; serialiser fixed-width big-endian; backing name offset independent of header_length field')
+    rep.rule('C15.8', 'address arithmetic (HostCluster, SplitGuestOffset) = specification bit tables for every geometry')
     rep.rule('C15.6', 'inverse key functions use the geometry fields of the forward index functions')
     ev = Evaluator(f)
     e = sym('e', 64)
@@ -259,6 +263,8 @@ def run(ctx, rep):
         raise AnalysisError('serialize_to_buf: store to backing_file_offset not found')
     # ---------------------------------------------------------------- C15.6
     key_rule(f, P, rep, 'C15.6')
+    # ---------------------------------------------------------------- C15.8
+    address_rule(f, ev, rep)
 
 
 def header_layout_rule(f, rep, rid):
@@ -383,3 +389,90 @@ def key_rule(f, P, rep, rid):
                           'slices flushed before a top-table block is written is wrong for large offsets, so the block '
                           'can be written before the slices it points to' % (inv_name, sorted(own), fwd.split('::')[-1], sorted(fwd_fields)))
     rep.floor('inverse key functions', n, 2)
+
+
+def info_value(f, cb, ro, l2sb, rbsb, bs=9):
+    """a Qcow2Info with the field values the specification gives for this geometry (C09.4 decides that
+    Qcow2Info::new produces exactly these)"""
+    vals = {
+        'block_size_shift': bs, 'cluster_shift': cb, 'l2_index_shift': cb - 3, 'l2_slice_index_shift': l2sb - 3,
+        'l2_slice_bits': l2sb, 'refcount_order': ro, 'rb_slice_bits': rbsb, 'rb_index_shift': cb + 3 - ro,
+        'rb_slice_index_shift': rbsb + 3 - ro, 'flags': 0, 'l2_slice_entries': 1 << (l2sb - 3),
+        'in_cluster_offset_mask': (1 << cb) - 1, 'l2_index_mask': (1 << (cb - 3)) - 1, 'rb_index_mask': (1 << (cb + 3 - ro)) - 1,
+        'l2_cache_cnt': 2, 'rb_cache_cnt': 2, 'virtual_size': 1 << 40,
+    }
+    xs = []
+    for fl in f.adts['dev::info::Qcow2Info']['variants'][0]['fields']:
+        w = {'u8': 8, 'u16': 16, 'u32': 32, 'u64': 64, 'usize': 64}.get(f.types[fl['t']].get('p'))
+        if w is None or fl['n'] not in vals:
+            raise AnalysisError('Qcow2Info field %s is not known to the address rule' % fl['n'])
+        xs.append(C(w, vals[fl['n']]))
+    return Adt('dev::info::Qcow2Info', 0, xs)
+
+
+def shifted(sym_bits, lo, n, at=0, width=64):
+    """bit vector: n bits of the input starting at bit lo, placed at bit `at`, zero elsewhere"""
+    out = ['0'] * width
+    for i in range(n):
+        if 0 <= at + i < width and lo + i < len(sym_bits):
+            out[at + i] = sym_bits[lo + i]
+    return out
+
+
+def address_rule(f, ev, rep):
+    h = sym('h', 64)
+    hb = h.bits
+    n = 0
+    bad = {}
+    und = set()
+    for cb in (9, 12, 16, 21):
+        for ro in (0, 2, 3, 4, 6):
+            for sb in sorted({9, min(12, cb)}):
+                info = info_value(f, cb, ro, sb, sb)
+                k, ks = cb + 3 - ro, sb + 3 - ro          # log2(entries per refblock / per refblock slice)
+                l2k, l2ks = cb - 3, sb - 3
+                want = {
+                    'dev::alloc::HostCluster::rt_index': shifted(hb, cb + k, 64 - cb - k),
+                    'dev::alloc::HostCluster::rb_index': shifted(hb, cb, k),
+                    'dev::alloc::HostCluster::rb_slice_index': shifted(hb, cb, ks),
+                    'dev::alloc::HostCluster::rb_slice_key': shifted(hb, cb + ks, 64 - cb - ks),
+                    'dev::alloc::HostCluster::rb_slice_host_start': shifted(hb, cb + ks, 64 - cb - ks, cb + ks),
+                    'dev::alloc::HostCluster::rb_host_start': shifted(hb, cb + k, 64 - cb - k, cb + k),
+                    'dev::alloc::HostCluster::rb_slice_off_in_table': shifted(hb, cb + ks, k - ks, sb),
+                    'meta::addr::SplitGuestOffset::l1_index': shifted(hb, cb + l2k, 64 - cb - l2k),
+                    'meta::addr::SplitGuestOffset::l2_index': shifted(hb, cb, l2k),
+                    'meta::addr::SplitGuestOffset::l2_slice_index': shifted(hb, cb, l2ks),
+                    'meta::addr::SplitGuestOffset::l2_slice_key': shifted(hb, cb + l2ks, 64 - cb - l2ks),
+                    'meta::addr::SplitGuestOffset::l2_slice_off_in_table': shifted(hb, cb + l2ks, l2k - l2ks, sb),
+                    'meta::addr::SplitGuestOffset::in_cluster_offset': shifted(hb, 0, cb),
+                }
+                for fn, bits in want.items():
+                    if f.body(fn) is None:
+                        raise AnalysisError('address function %s not found' % fn)
+                    n += 1
+                    try:
+                        ev.steps = 0
+                        r = ev.call(fn, [h, info])
+                        got = to_bits(r, 64)
+                    except Undecided as x:
+                        und.add((fn, str(x)[:80]))
+                        continue
+                    diff = [i for i in range(64) if got[i] != bits[i]]
+                    if diff:
+                        bad.setdefault(fn, (cb, ro, sb, diff[:6], [got[i] for i in diff[:6]], [bits[i] for i in diff[:6]]))
+    fns = sorted({fn for fn in want})
+    for fn in fns:
+        ok = fn not in bad
+        u = [x for x in und if x[0] == fn]
+        if u and ok:
+            rep.note_undecided('C15.8', fn, u[0][1])
+            rep.ob('C15.8', '%s (not decided)' % fn.split('::', 2)[-1], True, 'outside the bit domain: %s' % u[0][1])
+            continue
+        rep.ob('C15.8', fn.split('::', 2)[-1], ok, 'equals the specified bit selection in every geometry' if ok else
+               'cluster_bits %d refcount_order %d slice bits %d: bit(s) %s are %s, specified %s' % bad[fn])
+        if not ok:
+            rep.violation('C15.8', 'C15.8:%s' % fn.split('::')[-1], f.body(fn).where(0),
+                          '%s does not select the specified bits of the offset (cluster_bits %d, refcount_order %d, slice bits %d: '
+                          'bit(s) %s are %s, specified %s): entries of different slices/tables are addressed at the same place' % (
+                              (fn.split('::')[-1],) + bad[fn]))
+    rep.floor('address function evaluations', n, 400)
